@@ -13,9 +13,13 @@ type branchSpec struct {
 	required []string
 	good     M // values satisfying the branch
 	bad      M // same keys, one bound violated (no type error)
+	// complementary overlap: every branch declares the string property "shared" with a DIFFERENT constraint
+	// keyword; sharedBad violates this branch's constraint only ("abc" satisfies all of them)
+	sharedBad any
 }
 
-func mkBranches(r *core.Rng, n int, overlapIdentical bool) []branchSpec {
+func mkBranches(r *core.Rng, n int, overlap string) []branchSpec {
+	overlapIdentical := overlap == "identical"
 	var out []branchSpec
 	for i := 0; i < n; i++ {
 		a, b := fmt.Sprintf("a%d", i), fmt.Sprintf("b%d", i)
@@ -41,6 +45,23 @@ func mkBranches(r *core.Rng, n int, overlapIdentical bool) []branchSpec {
 			bs.good["shared"] = true
 			bs.bad["shared"] = true
 		}
+		if overlap == "complementary" {
+			sh := M{"type": "string"}
+			switch i {
+			case 0:
+				sh["minLength"] = 2
+				bs.sharedBad = "a"
+			case 1:
+				sh["maxLength"] = 5
+				bs.sharedBad = "abcdefgh"
+			case 2:
+				sh["pattern"] = "^a"
+				bs.sharedBad = "bcd"
+			}
+			bs.props["shared"] = sh
+			bs.good["shared"] = "abc"
+			bs.bad["shared"] = "abc"
+		}
 		out = append(out, bs)
 	}
 	return out
@@ -56,7 +77,7 @@ func (b branchSpec) schema() M {
 
 func init() {
 	register("C11", func(c *engine.Ctx) {
-		c.Rule = "allOf / anyOf of 1..4 object branches, inline or given by $ref to object definitions, with disjoint property sets or one identically declared shared property, each branch with its own required list and bounds; for every subset S of the branches a document that satisfies exactly the branches in S (the others fail by one exceeded bound or one missing required key, never by a type error). Verdict must equal the reference; the generated outer type must expose the union of the branches' properties. Distinct = distinct (kind, branch count, subset, verdicts)."
+		c.Rule = "allOf / anyOf of 1..4 object branches, inline or given by $ref to object definitions, with disjoint property sets, one identically declared shared property, or (allOf) one shared string property on which every branch puts a DIFFERENT constraint keyword (minLength / maxLength / pattern: the conjunction must hold), each branch with its own required list and bounds; for every subset S of the branches a document that satisfies exactly the branches in S (the others fail by one exceeded bound or one missing required key, never by a type error). Verdict must equal the reference; the generated outer type must expose the union of the branches' properties. Distinct = distinct (kind, branch count, subset, verdicts)."
 		c.Proofs([]string{"GJS.Props.C11"}, []string{
 			"GJS.Props.C11.anyBranch_iff", "GJS.Props.C11.anyOf_validator_rejects_iff", "GJS.Props.C11.merge_required",
 			"GJS.Props.C11.mergeEntry_keys", "GJS.Props.C11.mergeKvs_keys", "GJS.Props.C11.mergeKvs_disjoint_lookup",
@@ -73,7 +94,10 @@ func init() {
 		for _, kind := range []string{"allOf", "anyOf"} {
 			for n := 1; n <= 4; n++ {
 				for _, viaRef := range []bool{false, true} {
-					for _, shared := range []bool{false, true} {
+					for _, shared := range []string{"none", "identical", "complementary"} {
+						if shared == "complementary" && (kind != "allOf" || n < 2) {
+							continue
+						}
 						for rep := 0; rep < reps; rep++ {
 							bs := mkBranches(c.R, n, shared)
 							var branches []any
@@ -116,13 +140,28 @@ func init() {
 										d[k] = v
 									}
 								}
+								if shared == "complementary" {
+									// a failing branch may fail through the shared property instead: the value violates that
+									// branch's keyword only
+									for i, b := range bs {
+										if mask&(1<<i) == 0 && b.sharedBad != nil && c.R.P(0.6) {
+											d["shared"] = b.sharedBad
+											for k, v := range b.good {
+												if k != "shared" {
+													d[k] = v
+												}
+											}
+											break
+										}
+									}
+								}
 								docs = append(docs, M{"v": d})
 							}
 							var fields []string
 							for _, b := range bs {
 								fields = append(fields, core.SortedKeys(b.props)...)
 							}
-							pcs = append(pcs, baseCase("c11-"+kind, schema, docs, kind, fmt.Sprintf("n=%d", n), fmt.Sprintf("ref=%v", viaRef), fmt.Sprintf("shared=%v", shared)))
+							pcs = append(pcs, baseCase("c11-"+kind, schema, docs, kind, fmt.Sprintf("n=%d", n), fmt.Sprintf("ref=%v", viaRef), "shared="+shared))
 							metas = append(metas, meta{kind, n, fields})
 						}
 					}
